@@ -74,6 +74,15 @@ theorem specParse_copy {c : Nat} {t : List Nat} (h : escapeAt (c :: t) = none) :
     rw [h] at h'; cases h'
   · rfl
 
+/-- the specification never produces more characters than the text has -/
+theorem specParse_length_le (t : List Nat) : (specParse t).length ≤ t.length := by
+  induction t using specParse.induct with
+  | case1 => simp [specParse_nil]
+  | case2 c t v r h hlt ih =>
+    rw [specParse_esc h]; simp only [List.length_cons] at hlt ⊢; omega
+  | case3 c t h ih =>
+    rw [specParse_copy h]; simp only [List.length_cons]; omega
+
 theorem escapeAt_nil : escapeAt [] = none := by simp [escapeAt]
 
 theorem escapeAt_ne_bs {c : Nat} {t : List Nat} (h : c ≠ 92) : escapeAt (c :: t) = none := by
@@ -660,3 +669,118 @@ theorem pieceOf_no_quote (x : Nat) (hx : x ≠ 34) : 34 ∉ pieceOf x := by
     · split at hc
       · simp at hc; exact lower _ (hexPad_lower 4 x) hc
       · simp at hc; exact lower _ (hexDigitsOf_lower x) hc
+
+/-- the piece for `x` once doubled quotes are undone -/
+def pieceU (x : Nat) : List Nat := if x = 34 then [34] else pieceOf x
+
+theorem undouble_cons_ne (c : Nat) (q : List Nat) (hc : c ≠ 34) : undouble (c :: q) = c :: undouble q := by
+  cases q with
+  | nil => simp [undouble]
+  | cons d q => simp [undouble, hc]
+
+theorem undouble_no_quote (p r : List Nat) (h : 34 ∉ p) : undouble (p ++ r) = p ++ undouble r := by
+  induction p with
+  | nil => rfl
+  | cons c p ih =>
+    have hc : c ≠ 34 := fun e => h (by simp [e])
+    have hp : 34 ∉ p := fun e => h (List.mem_cons_of_mem _ e)
+    rw [List.cons_append, undouble_cons_ne _ _ hc, ih hp]; rfl
+
+theorem undouble_body (s : List Nat) : undouble (s.flatMap pieceOf) = s.flatMap pieceU := by
+  induction s with
+  | nil => rfl
+  | cons x s ih =>
+    simp only [List.flatMap_cons]
+    by_cases hx : x = 34
+    · subst hx; simp [pieceOf_quote, pieceU, undouble, ih]
+    · rw [undouble_no_quote _ _ (pieceOf_no_quote x hx), ih]; simp [pieceU, hx]
+
+theorem quotesPaired_cons_ne (c : Nat) (q : List Nat) (hc : c ≠ 34) :
+    quotesPaired (c :: q) = quotesPaired q := by
+  cases q with
+  | nil => simp [quotesPaired, hc]
+  | cons d q => simp [quotesPaired, hc]
+
+theorem quotesPaired_no_quote (p r : List Nat) (h : 34 ∉ p) : quotesPaired (p ++ r) = quotesPaired r := by
+  induction p with
+  | nil => rfl
+  | cons c p ih =>
+    have hc : c ≠ 34 := fun e => h (by simp [e])
+    have hp : 34 ∉ p := fun e => h (List.mem_cons_of_mem _ e)
+    rw [List.cons_append, quotesPaired_cons_ne _ _ hc, ih hp]
+
+theorem quotesPaired_body (s : List Nat) : quotesPaired (s.flatMap pieceOf) = true := by
+  induction s with
+  | nil => rfl
+  | cons x s ih =>
+    simp only [List.flatMap_cons]
+    by_cases hx : x = 34
+    · subst hx; simp [pieceOf_quote, quotesPaired, ih]
+    · rw [quotesPaired_no_quote _ _ (pieceOf_no_quote x hx), ih]
+
+theorem count_quote_body (s : List Nat) : (s.flatMap pieceOf).count 34 = 2 * s.count 34 := by
+  induction s with
+  | nil => rfl
+  | cons x s ih =>
+    simp only [List.flatMap_cons, List.count_append, ih, List.count_cons]
+    by_cases hx : x = 34
+    · subst hx; simp [pieceOf_quote]; omega
+    · have := List.count_eq_zero_of_not_mem (pieceOf_no_quote x hx)
+      simp [this, hx]
+
+/-- reading one printed character back -/
+theorem specParse_pieceU (x : Nat) (r : List Nat) (hx : x ≤ MAX_CHAR) :
+    specParse (pieceU x ++ r) = x :: specParse r := by
+  have hm : MAX_CHAR = 196607 := rfl
+  have h125 : isHex 125 = false := by decide
+  by_cases h1 : x = 34
+  · subst h1
+    have : pieceU 34 = [34] := by simp [pieceU]
+    rw [this, List.cons_append, List.nil_append, specParse_copy (escapeAt_ne_bs (by omega))]
+    simp [copyChar, hm]
+  by_cases h2 : x ≥ 32 ∧ x < 127 ∧ x ≠ 92
+  · have : pieceU x = [x] := by simp [pieceU, pieceOf, h1, h2]
+    rw [this, List.cons_append, List.nil_append, specParse_copy (escapeAt_ne_bs (by omega))]
+    simp [copyChar, hx]
+  by_cases h3 : x < 32 ∨ x = 127 ∨ x = 92
+  · have hp : pieceU x = [92, 117, 123] ++ hexPad 2 x ++ [125] := by
+      simp only [pieceU, pieceOf, if_neg h1, if_neg h2, if_pos h3]
+    have hl : (hexPad 2 x).length = 2 :=
+      hexPad_len 2 x (hexDigitsOf_len_le 1 x (by simp; omega))
+    have := escapeAt_brace (hexPad 2 x) (125 :: r) (hexPad_lower 2 x).H (noHexHead_cons h125)
+    simp [hl, hexPad_value, hx] at this
+    rw [hp]
+    simp [specParse_esc this]
+  by_cases h4 : x < 0x10000
+  · have hp : pieceU x = [92, 117] ++ hexPad 4 x := by
+      simp only [pieceU, pieceOf, if_neg h1, if_neg h2, if_neg h3, if_pos h4]
+    have hl : (hexPad 4 x).length = 4 :=
+      hexPad_len 4 x (hexDigitsOf_len_le 3 x (by simp; omega))
+    have hv := hexPad_value 4 x
+    have hh := (hexPad_lower 4 x).H
+    rw [hp]
+    match hq : hexPad 4 x, hl with
+    | [a, b, c, d], _ =>
+      rw [hq] at hv hh
+      have := escapeAt_hex4 a b c d r (hh a (by simp)) (hh b (by simp)) (hh c (by simp))
+        (hh d (by simp))
+      simp [specParse_esc this, hv]
+  · have hp : pieceU x = [92, 117, 123] ++ hexDigitsOf x ++ [125] := by
+      simp only [pieceU, pieceOf, if_neg h1, if_neg h2, if_neg h3, if_neg h4]
+    have hl1 : (hexDigitsOf x).length ≤ 5 := hexDigitsOf_len_le 4 x (by simp; omega)
+    have hl2 : 1 ≤ (hexDigitsOf x).length := hexDigitsOf_len_ge 0 x (by simp; omega)
+    have := escapeAt_brace (hexDigitsOf x) (125 :: r) (hexDigitsOf_lower x).H
+      (noHexHead_cons h125)
+    simp [hl1, hl2, hexDigitsOf_value, hx] at this
+    rw [hp]
+    simp [specParse_esc this]
+
+theorem specParse_body (s : List Nat) (hs : WFs s) : specParse (s.flatMap pieceU) = s := by
+  induction s with
+  | nil => exact specParse_nil
+  | cons x s ih =>
+    have hx : x ≤ MAX_CHAR := hs x List.mem_cons_self
+    have hs' : WFs s := fun y hy => hs y (List.mem_cons_of_mem _ hy)
+    rw [List.flatMap_cons, specParse_pieceU x _ hx, ih hs']
+
+end Smt.LiteralProofs
